@@ -22,6 +22,17 @@ Monitors:
   out   Out / ReplaceOut / OffsetOut / XOut / LocalOut: the decoded output
         units must be exactly the reference expansion of (fixed args +
         channel array) with literal zeros replaced by an audio-rate DC(0).
+
+In every kind a share of the cases (out 35 %, others 15 %) builds the same
+call a second time in a second SynthDef handing over the very same unit-free
+argument objects (constant lists / tuples / channel lists of ints and floats,
+for `out` always a nested row such as MUTE = [0, 0]); the second build is
+compared with a freshly built reference exactly like the first
+(keys end in /on-reused-arguments).  Argument-immutability monitor: a deep
+snapshot (container kinds and lengths, numbers by type and value, units by
+identity) of every argument is taken before the call and compared after the
+call and after the build (C03/argument-mutated/<kind>/<what changed>): the
+law describes a pure function of the arguments.
 """
 
 import collections
@@ -54,11 +65,19 @@ MIN_COUNTERS = {
               'gen_bytes_trees_compared': 300, 'gen_tuple_probes': 30,
               'op_compared': 500, 'meth_compared': 250,
               'out_units_checked': 500, 'out_zero_inputs_checked': 100,
+              'out_second_builds_with_shared_arguments': 300,
+              'out_argument_snapshots_compared': 1000,
+              'gen_second_builds_with_shared_arguments': 300,
+              'gen_argument_snapshots_compared': 3000,
               'min_classes_qualified': 100},
     'thorough': {'gen_compared': 100000, 'gen_unit_count_checks': 100000,
                  'gen_bytes_trees_compared': 20000, 'gen_tuple_probes': 2000,
                  'op_compared': 30000, 'meth_compared': 15000,
                  'out_units_checked': 30000, 'out_zero_inputs_checked': 5000,
+                 'out_second_builds_with_shared_arguments': 10000,
+                 'out_argument_snapshots_compared': 50000,
+                 'gen_second_builds_with_shared_arguments': 10000,
+                 'gen_argument_snapshots_compared': 200000,
                  'min_classes_qualified': 100},
 }
 
@@ -177,6 +196,26 @@ class Harness:
 
     def inst(self, t):
         return M.instantiate(t, self.make_ugen, self.ChannelList)
+
+    def inst_pair(self, t, share, path):
+        """(value handed to the library, equal fresh value for the
+        reference); unit-free sub-structures are shared between builds when
+        `share` is a dict."""
+        return M.instantiate_pair(t, self.make_ugen, self.ChannelList,
+                                  share, path)
+
+    def snap(self, args):
+        ugn = self.ugn
+        return [M.snapshot(a, lambda x: isinstance(x, ugn.SynthObject))
+                for a in args]
+
+    @staticmethod
+    def snap_diff(before, after):
+        for a, b in zip(before, after):
+            d = M.snapshot_diff(a, b)
+            if d:
+                return d
+        return None
 
     def build(self, body, name='c03'):
         """-> (synthdef | None, exception | None)."""
@@ -520,27 +559,42 @@ def run_gen(spec, acc, H):
         rng = case_rng(spec['seed'], 'C03', 'gen', i)
         ent = rng.choice(probes) if rng.random() < 0.06 else rng.choice(pop)
         templates = gen_call_templates(rng, ent)
-        gen_case(acc, H, i, ent, templates, probes)
+        gen_case(acc, H, i, ent, templates, probes,
+                 reuse=rng.random() < 0.15)
 
 
 def tdesc(templates):
     return [repr(t) for t in templates]
 
 
-def gen_case(acc, H, i, ent, templates, probes, classify=True):
-    """returns mismatch kind or None"""
+def gen_case(acc, H, i, ent, templates, probes, classify=True, reuse=False):
+    """returns mismatch kind or None.  reuse: the call is built a second
+    time, in a second SynthDef, with the very same unit-free argument objects
+    (shared constant lists / tuples / channel lists)."""
+    share = {} if reuse else None
+    kind = gen_build(acc, H, i, ent, templates, probes, classify, share, 1)
+    if kind is None and reuse:
+        acc.count('gen_second_builds_with_shared_arguments')
+        kind = gen_build(acc, H, i, ent, templates, probes, classify, share, 2)
+    return kind
+
+
+def gen_build(acc, H, i, ent, templates, probes, classify, share, build_no):
     callee = f"{ent['name']}.{ent['sel']}"
     meth = ent['meth']
     st = {}
     has_tuple = any(M.template_has(t, 'tup') for t in templates)
 
     def body():
-        args = [t[1] if t[0] == 'fixed' else H.inst(t) for t in templates]
-        argsR = copy_lists(args)
+        pairs = [(t[1], t[1]) if t[0] == 'fixed' else H.inst_pair(t, share, (k,))
+                 for k, t in enumerate(templates)]
+        args = [p[0] for p in pairs]
+        argsR = [p[1] for p in pairs]
         s = H.signer()
-        before = [s(a) for a in args]
+        st['args'] = args
+        st['snap0'] = H.snap(args)
         E, Eexc, cE = H.count_created(lambda: meth(*args))
-        st['mutated'] = [s(a) for a in args] != before
+        st['mutated'] = H.snap_diff(st['snap0'], H.snap(args))
         stats = {}
         R, Rexc, cR = H.count_created(lambda: M.expand(
             argsR, lambda a: meth(*a), H.ChannelList, stats))
@@ -583,10 +637,21 @@ def gen_case(acc, H, i, ent, templates, probes, classify=True):
     if 'E' not in st:
         # argument instantiation itself failed - harness problem, not a verdict
         acc.count('gen_body_not_reached')
-        acc.case(h64((callee, tdesc(templates))), nontrivial=False)
+        if build_no == 1:
+            acc.case(h64((callee, tdesc(templates))), nontrivial=False)
         return None
     kind = None
-    wit = {'case': i, 'callee': callee, 'templates': tdesc(templates)}
+    wit = {'case': i, 'callee': callee, 'templates': tdesc(templates),
+           'build': build_no}
+    acc.count('gen_argument_snapshots_compared', 2)
+    mut = st['mutated'] or H.snap_diff(st['snap0'], H.snap(st['args']))
+    if mut:
+        wit['mutated_when'] = 'call' if st['mutated'] else 'build'
+        wit['arguments_after'] = repr(st['args'])[:500]
+        acc.violation(f'C03/argument-mutated/constructor/{mut}', wit)
+        if build_no == 1:
+            acc.case(h64((callee, tdesc(templates))), nontrivial=True)
+        return 'argument-mutated'
     if st['Eexc'] is not None and st['Rexc'] is not None:
         acc.count('gen_discard_both_raise')
     elif st['Rexc'] is not None:
@@ -617,8 +682,6 @@ def gen_case(acc, H, i, ent, templates, probes, classify=True):
             wit['probe'] = st['tuple_repr']
         if 'tuple_probe' in st:
             acc.count('gen_tuple_probes')
-        if st.get('mutated'):
-            acc.count('gen_argument_lists_mutated')
         if kind is None:
             # bytes level
             if sd is None:
@@ -629,9 +692,12 @@ def gen_case(acc, H, i, ent, templates, probes, classify=True):
                 bk = gen_bytes_check(acc, sd, st, wit)
                 if bk:
                     kind = bk
-    acc.case(h64((callee, tdesc(templates))),
-             nontrivial=nontriv and kind is None or bool(kind))
-    if acc.want_sample() and nontriv and kind is None and \
+    if build_no == 1:
+        acc.case(h64((callee, tdesc(templates))),
+                 nontrivial=nontriv and kind is None or bool(kind))
+    if kind and build_no == 2:
+        kind += '/on-reused-arguments'
+    if build_no == 1 and acc.want_sample() and nontriv and kind is None and \
             len(repr(templates)) < 400:
         acc.sample({'case': i, 'call': callee, 'argument_templates':
                     tdesc(templates), 'expanded_result': repr(st['E'])[:400],
@@ -651,8 +717,9 @@ def gen_case(acc, H, i, ent, templates, probes, classify=True):
                 def case(self, *a, **k): pass
                 def want_sample(self): return False
                 def violation(self, *a): pass
-            k2 = gen_case(_Null(), H, i, probe, pt, probes, classify=False)
-            generic = k2 is not None
+            k2 = gen_case(_Null(), H, i, probe, pt, probes, classify=False,
+                          reuse=build_no == 2)
+            generic = k2 is not None and k2 != 'argument-mutated'
             if generic:
                 wit['class_specific_kind'] = kind
                 kind = k2
@@ -789,13 +856,15 @@ def run_op(spec, acc, H):
             if reverse and other[0] == 'list' and other[2] and \
                     rng.random() < 0.5:
                 other = ('list', other[1], False)
-            op_case(acc, H, i, fam, name, recv, other, reverse)
+            op_case(acc, H, i, fam, name, recv, other, reverse,
+                    reuse=rng.random() < 0.15)
         else:
             name = rng.choice(PY_UN if fam == 'pyun' else NAMED_UN)
             p_num = 0.0 if name in RANDOM_OPS else (
                 0.25 if fam == 'pyun' or num_leaf_fn(bi, name) else 0.0)
             recv = gen_receiver(rng, p_num, rates)
-            op_case(acc, H, i, fam, name, recv, None, False)
+            op_case(acc, H, i, fam, name, recv, None, False,
+                    reuse=rng.random() < 0.15)
 
 
 def op_callables(H, fam, name, reverse):
@@ -826,17 +895,32 @@ def op_callables(H, fam, name, reverse):
     return (lambda r, o: getattr(r, name)()), leaf1
 
 
-def op_case(acc, H, i, fam, name, recv, other, reverse, classify=True):
+def op_case(acc, H, i, fam, name, recv, other, reverse, classify=True,
+            reuse=False):
+    share = {} if reuse else None
+    kind = op_build(acc, H, i, fam, name, recv, other, reverse, classify,
+                    share, 1)
+    if kind is None and reuse:
+        acc.count('op_second_builds_with_shared_arguments')
+        kind = op_build(acc, H, i, fam, name, recv, other, reverse, classify,
+                        share, 2)
+    return kind
+
+
+def op_build(acc, H, i, fam, name, recv, other, reverse, classify, share,
+             build_no):
     st = {}
     call, leaf = op_callables(H, fam, name, reverse)
     binary = other is not None
 
     def body():
-        r = H.inst(recv)
-        o = H.inst(other) if binary else None
-        rR, oR = copy_lists(r), copy_lists(o)
+        r, rR = H.inst_pair(recv, share, (0,))
+        o, oR = H.inst_pair(other, share, (1,)) if binary else (None, None)
         s = H.signer()
+        st['args'] = [r, o] if binary else [r]
+        st['snap0'] = H.snap(st['args'])
         E, Eexc, cE = H.count_created(lambda: call(r, o))
+        st['mutated'] = H.snap_diff(st['snap0'], H.snap(st['args']))
         stats = {}
         R, Rexc, cR = H.count_created(lambda: M.expand(
             [rR, oR] if binary else [rR], leaf, H.ChannelList, stats))
@@ -850,8 +934,19 @@ def op_case(acc, H, i, fam, name, recv, other, reverse, classify=True):
     opname = ('r' if reverse else '') + name
     desc = (fam, opname, repr(recv), repr(other))
     wit = {'case': i, 'family': fam, 'op': opname, 'receiver': repr(recv),
-           'other': repr(other)}
+           'other': repr(other), 'build': build_no}
     kind = None
+    mut = None
+    if 'E' in st:
+        acc.count('op_argument_snapshots_compared', 2)
+        mut = st['mutated'] or H.snap_diff(st['snap0'], H.snap(st['args']))
+    if mut:
+        wit['mutated_when'] = 'call' if st['mutated'] else 'build'
+        wit['arguments_after'] = repr(st['args'])[:500]
+        acc.violation(f'C03/argument-mutated/operator/{mut}', wit)
+        if build_no == 1:
+            acc.case(h64(desc), nontrivial=True)
+        return 'argument-mutated'
     if 'E' not in st:
         acc.count('op_body_not_reached')
     elif st['Eexc'] is not None and st['Rexc'] is not None:
@@ -872,8 +967,11 @@ def op_case(acc, H, i, fam, name, recv, other, reverse, classify=True):
             wit.update(created_expanded=st['cE'], created_reference=st['cR'])
     nontriv = 'E' in st and st.get('Eexc') is None and st.get('Rexc') is None \
         and (st['stats'].get('wrapped') or st['stats'].get('levels', 0) > 1)
-    acc.case(h64(desc), nontrivial=bool(nontriv) or bool(kind))
-    if acc.want_sample() and nontriv and not kind:
+    if build_no == 1:
+        acc.case(h64(desc), nontrivial=bool(nontriv) or bool(kind))
+    if kind and build_no == 2:
+        kind += '/on-reused-arguments'
+    if build_no == 1 and acc.want_sample() and nontriv and not kind:
         acc.sample({'case': i, 'op': opname, 'receiver': repr(recv),
                     'other': repr(other), 'result': st['Erepr']})
     if kind and classify:
@@ -887,8 +985,8 @@ def op_case(acc, H, i, fam, name, recv, other, reverse, classify=True):
                 def want_sample(self): return False
                 def violation(self, *a): pass
             k2 = op_case(_Null(), H, i, fam, canon, recv, other, reverse,
-                         classify=False)
-            generic = k2 is not None
+                         classify=False, reuse=build_no == 2)
+            generic = k2 is not None and k2 != 'argument-mutated'
             if generic:
                 wit['op_specific_kind'] = kind
                 kind = k2
@@ -953,7 +1051,7 @@ def run_meth(spec, acc, H):
                                       for _ in range(n)], rng.random() < 0.3))
             else:
                 args.append(M.gen_leaf(rng, numfn, p_ugen, 0.0, rates))
-        meth_case(acc, H, i, name, recv, args)
+        meth_case(acc, H, i, name, recv, args, reuse=rng.random() < 0.15)
 
 
 class _Null:
@@ -964,15 +1062,28 @@ class _Null:
     def violation(self, *a): pass
 
 
-def meth_case(acc, H, i, name, recv, args, classify=True):
+def meth_case(acc, H, i, name, recv, args, classify=True, reuse=False):
+    share = {} if reuse else None
+    kind = meth_build(acc, H, i, name, recv, args, classify, share, 1)
+    if kind is None and reuse:
+        acc.count('meth_second_builds_with_shared_arguments')
+        kind = meth_build(acc, H, i, name, recv, args, classify, share, 2)
+    return kind
+
+
+def meth_build(acc, H, i, name, recv, args, classify, share, build_no):
     st = {}
 
     def body():
-        r = H.inst(recv)
-        a = [H.inst(t) for t in args]
-        rR, aR = copy_lists(r), copy_lists(a)
+        r, rR = H.inst_pair(recv, share, (0,))
+        pairs = [H.inst_pair(t, share, (1, k)) for k, t in enumerate(args)]
+        a = [p[0] for p in pairs]
+        aR = [p[1] for p in pairs]
         s = H.signer()
+        st['args'] = [r] + a
+        st['snap0'] = H.snap(st['args'])
         E, Eexc, cE = H.count_created(lambda: getattr(r, name)(*a))
+        st['mutated'] = H.snap_diff(st['snap0'], H.snap(st['args']))
         stats = {}
         R, Rexc, cR = H.count_created(lambda: M.expand(
             [rR] + aR, lambda x: getattr(x[0], name)(*x[1:]),
@@ -985,8 +1096,19 @@ def meth_case(acc, H, i, name, recv, args, classify=True):
             st['Erepr'], st['Rrepr'] = repr(E)[:500], repr(R)[:500]
     H.build(body)
     wit = {'case': i, 'method': name, 'receiver': repr(recv),
-           'args': [repr(t) for t in args]}
+           'args': [repr(t) for t in args], 'build': build_no}
     kind = None
+    mut = None
+    if 'E' in st:
+        acc.count('meth_argument_snapshots_compared', 2)
+        mut = st['mutated'] or H.snap_diff(st['snap0'], H.snap(st['args']))
+    if mut:
+        wit['mutated_when'] = 'call' if st['mutated'] else 'build'
+        wit['arguments_after'] = repr(st['args'])[:500]
+        acc.violation(f'C03/argument-mutated/method/{mut}', wit)
+        if build_no == 1:
+            acc.case(h64((name, repr(recv), repr(args))), nontrivial=True)
+        return 'argument-mutated'
     if 'E' not in st:
         acc.count('meth_body_not_reached')
     elif st['Eexc'] is not None and st['Rexc'] is not None:
@@ -1008,9 +1130,10 @@ def meth_case(acc, H, i, name, recv, args, classify=True):
             wit.update(created_expanded=st['cE'], created_reference=st['cR'])
     nontriv = 'E' in st and st.get('Eexc') is None and st.get('Rexc') is None \
         and (st['stats'].get('wrapped') or st['stats'].get('levels', 0) > 1)
-    acc.case(h64((name, repr(recv), repr(args))),
-             nontrivial=bool(nontriv) or bool(kind))
-    if acc.want_sample() and nontriv and not kind:
+    if build_no == 1:
+        acc.case(h64((name, repr(recv), repr(args))),
+                 nontrivial=bool(nontriv) or bool(kind))
+    if build_no == 1 and acc.want_sample() and nontriv and not kind:
         acc.sample({'case': i, 'method': name, 'receiver': repr(recv),
                     'args': [repr(t) for t in args], 'result': st['Erepr']})
     if kind and classify:
@@ -1025,6 +1148,8 @@ def meth_case(acc, H, i, name, recv, args, classify=True):
             flat2 = ('list', [('ugen', 'audio'), ('ugen', 'audio')], True)
             if meth_case(_Null(), H, i, name, flat2, [], classify=False):
                 how = '/defaults'
+        if build_no == 2:
+            how += '/on-reused-arguments'
         acc.violation(f'C03/chlist-method/{name}/{fam}{how}', wit)
     return kind
 
@@ -1085,22 +1210,55 @@ def run_out(spec, acc, H):
             else:
                 fixed_t.append(('num', float(rng.randint(1, 60))))
         out_t = gen_out_template(rng, audio)
-        out_case(acc, H, scgf, i, cname, sel, fixed_t, out_t)
+        reuse = rng.random() < 0.35
+        if reuse:
+            # a shared constant row (unit-free nested list) inside the
+            # channel array, e.g. MUTE = [0, 0]; Out.ar(0, [sig, MUTE])
+            row = ('list', [('num', rng.choice([0, 0.0, 0] if audio else
+                                               [0, 0.0, 0.5, 3]))
+                            for _ in range(rng.choice([1, 2, 2, 3]))],
+                   rng.random() < 0.3)
+            if out_t[0] != 'list':
+                out_t = ('list', [out_t, row], False)
+            else:
+                items = list(out_t[1])
+                if rng.random() < 0.5 or len(items) == 1:
+                    items.insert(rng.randint(0, len(items)), row)
+                else:
+                    items[rng.randrange(len(items))] = row
+                out_t = ('list', items, out_t[2])
+        out_case(acc, H, scgf, i, cname, sel, fixed_t, out_t, reuse)
 
 
-def out_case(acc, H, scgf, i, cname, sel, fixed_t, out_t):
+def out_case(acc, H, scgf, i, cname, sel, fixed_t, out_t, reuse=False):
+    """reuse: the same call is built a second time, in a second SynthDef,
+    with the very same unit-free argument objects."""
+    share = {} if reuse else None
+    bad = out_build(acc, H, scgf, i, cname, sel, fixed_t, out_t, share, 1)
+    if not bad and reuse:
+        acc.count('out_second_builds_with_shared_arguments')
+        out_build(acc, H, scgf, i, cname, sel, fixed_t, out_t, share, 2)
+
+
+def out_build(acc, H, scgf, i, cname, sel, fixed_t, out_t, share, build_no):
+    import os
     audio = sel == 'ar'
     cls = getattr(H.iou, cname)
     callee = f'{cname}.{sel}'
     st = {}
+    again = '/on-reused-arguments' if build_no == 2 else ''
 
     def body():
-        fixed = [H.inst(t) for t in fixed_t]
-        output = H.inst(out_t)
-        st['expected'] = M.out_reference(fixed, copy_lists(output), audio)
+        fp = [H.inst_pair(t, share, (0, k)) for k, t in enumerate(fixed_t)]
+        fixed, fixedR = [p[0] for p in fp], [p[1] for p in fp]
+        output, outputR = H.inst_pair(out_t, share, (1,))
+        st['expected'] = M.out_reference(fixedR, outputR, audio)
+        st['args'] = fixed + [output]
+        st['snap0'] = H.snap(st['args'])
         st['called'] = True
         getattr(cls, sel)(*fixed, output)
         st['returned'] = True
+        st['mutated'] = H.snap_diff(st['snap0'], H.snap(st['args']))
 
     # expected wire of a python-side leaf, in decoded form
     def expect_wire(x):
@@ -1121,26 +1279,37 @@ def out_case(acc, H, scgf, i, cname, sel, fixed_t, out_t):
 
     sd, exc = H.build(body)
     wit = {'case': i, 'callee': callee, 'fixed': [repr(t) for t in fixed_t],
-           'output': repr(out_t)}
+           'output': repr(out_t), 'build': build_no}
     acc.count('out_cases')
     zeros = sum(1 for c in st.get('expected', []) for w in c if w is M.SIL)
     nontriv = len(st.get('expected', [])) > 1 or zeros > 0
-    acc.case(h64((callee, repr(fixed_t), repr(out_t))), nontrivial=nontriv)
+    if build_no == 1:
+        acc.case(h64((callee, repr(fixed_t), repr(out_t))), nontrivial=nontriv)
     if 'expected' not in st:
         acc.count('out_body_not_reached')
-        return
+        return True
+    # argument immutability: after the call and after the build
+    if 'snap0' in st and not os.environ.get('C03_NO_MUTMON'):
+        acc.count('out_argument_snapshots_compared', 2)
+        mut = st.get('mutated') or H.snap_diff(st['snap0'], H.snap(st['args']))
+        if mut:
+            wit['mutated_when'] = 'call' if st.get('mutated') else 'build'
+            wit['arguments_after'] = repr(st['args'])[:500]
+            acc.violation(f'C03/argument-mutated/out/{mut}', wit)
+            return True
     if exc is not None:
         where = 'call' if 'returned' not in st else 'build'
         wit['exception'] = short_tb(exc)
-        acc.violation(f'C03/out/{callee}/{where}-raises/{exc_site(exc)}', wit)
-        return
+        acc.violation(
+            f'C03/out/{callee}/{where}-raises/{exc_site(exc)}{again}', wit)
+        return True
     try:
         d = scgf.parse(bytes(sd.as_bytes()))
     except Exception as e:
         acc.count('out_bytes_not_parseable')
         wit['parse_error'] = str(e)[:300]
-        acc.violation(f'C03/out/{callee}/bytes-not-parseable', wit)
-        return
+        acc.violation(f'C03/out/{callee}/bytes-not-parseable{again}', wit)
+        return True
     unit, wire = dsigner(d)
     got = [unit(u.index) for u in d.units if u.cls == cname]
     rate = 2 if audio else 1
@@ -1184,10 +1353,13 @@ def out_case(acc, H, scgf, i, cname, sel, fixed_t, out_t):
         wit['decoded_units'] = got_ins[:8]
         wit['expected_units'] = exp_ins[:8]
         wit['decoded_rates'] = [g[1] for g in got]
-        acc.violation(f'C03/out/{callee}/{problems}', wit)
-    elif acc.want_sample() and nontriv and len(exp_units) <= 4:
+        acc.violation(f'C03/out/{callee}/{problems}{again}', wit)
+        return True
+    elif build_no == 1 and acc.want_sample() and nontriv \
+            and len(exp_units) <= 4:
         acc.sample({'case': i, 'call': callee, 'fixed': [repr(t) for t in fixed_t],
                     'output': repr(out_t), 'decoded_output_units': got_ins})
+    return False
 
 
 # ---------------------------------------------------------------------------
